@@ -54,7 +54,7 @@ func drawC16(rt *rapid.T) interface{} {
 	sc.WriteTO = rapid.SampledFrom([]int{30, 8000}).Draw(rt, "wto")
 	sc.BufSize = rapid.SampledFrom([]int{8, 64, 4096}).Draw(rt, "buf")
 	sc.AccErrs = rapid.SampledFrom([]int{0, 0, 0, 1, 3}).Draw(rt, "accerrs")
-	nc := rapid.IntRange(1, 4).Draw(rt, "nconns")
+	nc := rapid.IntRange(1, hx.Pick(4, 6)).Draw(rt, "nconns")
 	for i := 0; i < nc; i++ {
 		p := connPlan{}
 		nf := rapid.IntRange(0, 4).Draw(rt, "nframes")
@@ -405,6 +405,7 @@ func TestC16(t *testing.T) {
 		Stubs:       []string{"net (simnet: listener the harness dials, full-duplex bounded byte pipes, deadlines on the simulated clock, reset / peer close / temporary accept errors)", "time (simtime)", "sync (simsync)", "goroutine scheduling (simrt)"},
 		Rule: "scenario = max connections {1,2,3,8} x read/write timeouts x pipe buffer {8,64,4096} x 1-4 connections, each with 0-4 client frames (echo / swallow / handler error / handler panic), a reading or non-reading peer, 0-5 server Sends of 1-200 bytes, a terminating event (local Close, peer close, reset, silence -> timeout) after a drawn delay and optionally a second racing one, temporary accept errors x scheduler knobs/tape; " +
 			"non-trivial = >=2 tasks and >=1 switch; distinct = distinct event-log hash",
+		Probes:      []string{"clean-local-close", "connection-refused-over-max", "count-reached-max", "net-accept-error-injected", "net-read-timeout", "net-write-timeout", "net-reset", "idle-before-send", "net-close-returns-error"},
 		Assumptions: []string{"simnet close semantics: the peer reads what was written before the close, then EOF; a reset drops buffered data", "TLS, OS socket buffers and TCP half-close are out of scope"},
 	})
 }
